@@ -54,7 +54,10 @@ func GetAdaptedReDKG(originalDKG *types.ReDKG) (*types.ReDKG, error) {
 	var newOffset uint64
 	fixedSenders := map[string]struct{}{}
 	for _, m := range originalDKG.Messages {
-		if _, found := fixedSenders[m.SenderAddr]; !found && fsm.Event(m.Event) == dkg_proposal_fsm.EventDKGDealConfirmationReceived {
+		// one self-confirmation per sender IN THE ROUND BEING RESTORED: a deal message of another round
+		// on the same board (an abandoned earlier attempt, junk) must not use up the sender's
+		sameRound := m.DkgRoundID == originalDKG.DKGID
+		if _, found := fixedSenders[m.SenderAddr]; sameRound && !found && fsm.Event(m.Event) == dkg_proposal_fsm.EventDKGDealConfirmationReceived {
 			fixedSenders[m.SenderAddr] = struct{}{}
 			workAroundMessage, err := createMessage(m)
 			if err != nil {
